@@ -64,6 +64,7 @@ def pixel_data(n: int, units: str = 'default', dtype='float64') -> sc.DataArray:
         'default': ('1/angstrom', '1/angstrom', '1/angstrom', 'meV', 'count'),
         'alt': ('1/nm', '1/fm', '10/angstrom', 'eV', 'Mcount'),
         'alt2': ('1/um', '1/angstrom', '1/nm', 'ueV', 'count'),
+        'extreme': ('1/angstrom', '1/angstrom', '1/angstrom', 'eV', 'count'),
     }[units]
     sig_unit = sc.Unit('count') if u[4] == 'count' else sc.Unit('mega count')
 
@@ -75,6 +76,15 @@ def pixel_data(n: int, units: str = 'default', dtype='float64') -> sc.DataArray:
 
     values = (np.abs(col(7, 1.0)) + 0.1).astype(dtype)
     variances = (np.abs(col(8, 1e-3)) + 1e-3).astype(dtype)
+    extreme = units == 'extreme'
+    if extreme and n:
+        # finite float64 values outside the float32 range in the row unit (one rounding gives +-inf), and below the
+        # smallest float32 subnormal (one rounding gives +-0)
+        variances[0] = 2.5e39
+        values[n // 2] = 1e-50
+    u4 = col(4, 1.0)
+    if extreme and n:
+        u4[-1] = -7e35  # eV -> -7e38 meV, beyond float32
     da = sc.DataArray(
         sc.array(dims=['obs'], values=values, variances=variances, unit=sig_unit),
         coords={
@@ -84,7 +94,7 @@ def pixel_data(n: int, units: str = 'default', dtype='float64') -> sc.DataArray:
             'u1': sc.array(dims=['obs'], values=col(1, 1.0), unit=u[0]),
             'u2': sc.array(dims=['obs'], values=col(2, 1e-3), unit=u[1]),
             'u3': sc.array(dims=['obs'], values=col(3, 1e3), unit=u[2]),
-            'u4': sc.array(dims=['obs'], values=col(4, 1.0), unit=u[3]),
+            'u4': sc.array(dims=['obs'], values=u4, unit=u[3]),
         },
     )
     return da
@@ -106,7 +116,8 @@ def expected_pixel_rows(da: sc.DataArray) -> np.ndarray:
             v = da.coords[name]
         if unit is not None:
             v = v.to(unit=unit, dtype='float64')
-        cols.append(np.asarray(v.values, dtype='float64').astype('float32'))
+        with np.errstate(over='ignore', under='ignore'):
+            cols.append(np.asarray(v.values, dtype='float64').astype('float32'))
     return np.stack(cols, axis=1) if len(cols[0]) else np.zeros((0, 9), 'float32')
 
 
@@ -210,7 +221,7 @@ def dnd_metadata(n_bins=(2, 2, 2, 2), q_unit='1/angstrom', e_unit='meV', with_w=
 OPS = ('pix', 'inst', 'samp', 'dnd', 'det')
 
 
-def apply_ops(builder, ops, *, n_pixels=7, runs=1, n_bins=(2, 2, 2, 2), pix=None, experiments=None, units='default'):
+def apply_ops(builder, ops, *, n_pixels=7, runs=1, n_bins=(2, 2, 2, 2), pix=None, experiments=None, units='default'):  # noqa: PLR0913
     for op in ops:
         if op == 'pix':
             data = pix if pix is not None else pixel_data(n_pixels, units)
@@ -238,6 +249,10 @@ def write_file(ops, *, byteorder='native', sink='bytes', chunk=None, title='T', 
         path = os.path.join(tmpdir(), fname)
         if os.path.exists(path):
             os.remove(path)
+        if sink == 'path_existing':
+            # the path already holds a longer file (an earlier, bigger export): the new file must replace it entirely
+            with open(path, 'wb') as f:
+                f.write(b'\xa5' * 3_000_000)
         target = path
     builder = Sqw.build(target, title=title, byteorder=byteorder)
     builder = apply_ops(builder, ops, **kw)
